@@ -37,7 +37,7 @@ theorem src_get_strides_eq_model (t : Tens) (op : Option S4) (v : S4) (hv : view
 example : ∃ t v, viewShape t none = .ok v ∧ t.fmt ≠ .other ∧
     getStrides t none = .ok ⟨7 * 32 * 2 * 5, 16 * 2 * 7, 7 * 32 * 2, 16 * 2, 2⟩ :=
   ⟨{ shape := [1, 5, 7, 20], storageShape := [1, 5, 7, 32], fmt := .nhcwb16, quantum := ⟨1, 1, 1, 16⟩, elemSize := 2 },
-    ⟨1, 5, 7, 32⟩, by decide, by decide, by decide⟩
+    ⟨1, 5, 7, 32⟩, rfl, by decide, rfl⟩
 
 /-- `shape_num_elements(shp)` on a list of naturals: the product (`Some`; the `None` paths need a `None` entry) -/
 theorem src_shape_num_elements_eq_model (l : List Nat) :
